@@ -500,6 +500,9 @@ impl<'a> LiveEvents<'a> {
                     if !exists {
                         return Err(Error::unknown_anchor().with_location(location));
                     }
+                    if let Some(budget) = self.budget.as_mut() {
+                        budget.alias_slot_refilled_by_replay();
+                    }
                     self.inject.push(InjectFrame {
                         anchor_id,
                         idx: 0,
